@@ -177,7 +177,7 @@ theorem exFs_ty : tyOK (.struct exFs) = true := by
 theorem exFs_codec : fieldsOf 1 exFs
     = .cons 1 false false false .int32 (.cons 2 false true false (.slice .string 2 .varlen false) .nil) := by
   have hm : (lookupProtobuf "").bind parseStructTag = none := modelTag_empty
-  simp [exFs, codecOf, fieldsOf, hm, fieldCodecOf, isStructBase, baseTy, Codec.wire]
+  simp [exFs, codecOf, fieldsOf, hm, fieldCodecOf, isStructBase, embBase, baseTy, Codec.wire]
 
 /-- outcome class of a result, for `decide`d examples (`Val` has no decidable equality) -/
 def outcome {α : Type} : Res α → String
